@@ -59,7 +59,7 @@ def run(ctx, replay):
                         behaviours.append(dict(history=[h1, h2], probe=p))
         # 4. seeded random long histories over the whole record space (8 severities x 8 shapes x 3 formats)
         rng = random.Random(ctx.seed * 104729 + 3)
-        NSHAPES = 15
+        NSHAPES = 16
         space = [f * 1000 + s * 100 + sh for f in range(3) for s in range(8) for sh in range(NSHAPES)]
         probes = [x for x in space if x % 100 != 12]          # a probe whose own value panics has no output to compare
         # every special shape once directly in front of probes of every format
